@@ -2,6 +2,10 @@ import CanvasGen.SweepK
 import CanvasModel.Wn
 import CanvasProofs.Lemmas.Wn
 import CanvasProofs.Lemmas.C01Column
+import CanvasProofs.Lemmas.C01Avl
+import CanvasProofs.Lemmas.C01Heap
+import CanvasProofs.Lemmas.C01Cmp
+import CanvasProofs.Lemmas.C01Merge
 
 /-! # C01 — Boolean path operations compute the set algebra of the filled regions (partial)
 
@@ -128,5 +132,230 @@ example : SweepPoint.InResult (⟨false, false, 0, 0, 1, 0⟩ : SweepPoint ℚ) 
 example : C01.foldColumn [⟨false, false, true, false⟩, ⟨true, true, true, false⟩, ⟨false, false, false, false⟩]
     = [(⟨false, false, false, false⟩, ⟨1, 0, -1, 0⟩), (⟨true, true, true, false⟩, ⟨0, 1, 1, 0⟩),
        (⟨false, false, true, false⟩, ⟨0, 0, 1, 0⟩)] := by decide
+
+/-! # Second wave: the sweep-line data structures of path_intersection.go
+
+Each model below is tied to the real code by line-protocol correspondence through the hooks of
+/repo/verif_hooks_c01b*.go (tags AVLI/AVLR/AVLQ, HEAP, CMP, MRG of the C01 driver). -/
+
+/-! ## (A) `SweepStatus`: the AVL tree (model `Canvas.C01Avl`) -/
+section Avl
+open Canvas.C01Avl Canvas.C01Avl.Tree
+
+/-- `rotateLeft` keeps the in-order sequence (bottom-to-top order of the status) -/
+theorem avl_rotateLeft_inorder (t t' : Tree) (h : rotL t = some t') : t'.toList = t.toList :=
+  rotL_toList h
+
+/-- `rotateRight` keeps the in-order sequence -/
+theorem avl_rotateRight_inorder (t t' : Tree) (h : rotR t = some t') : t'.toList = t.toList :=
+  rotR_toList h
+
+/-- the loop body of `rebalance` (single or double rotation + height updates) keeps the in-order
+sequence — on ANY tree, balanced or not -/
+theorem avl_rebalance_inorder (t t' : Tree) (h : step t = some t') : t'.toList = t.toList :=
+  step_toList h
+
+/-- `InsertAfter(node k-1, x)` on a tree satisfying the invariant does not panic, puts `x`
+directly after element `k-1` of the in-order sequence and re-establishes the invariant -/
+theorem avl_insertAfter (t : Tree) (k x : Nat) (hk : k ≤ t.size) (i : Inv t) :
+    ∃ t', insertAt t k x = some t' ∧ Inv t' ∧
+      t'.toList = t.toList.take k ++ x :: t.toList.drop k :=
+  insertAt_spec t k x hk i
+
+/-- `Remove(node k)` does not panic, deletes exactly element `k` and re-establishes the invariant -/
+theorem avl_remove (t : Tree) (k : Nat) (hk : k < t.size) (i : Inv t) :
+    ∃ t', remove t k = some t' ∧ Inv t' ∧ t'.toList = t.toList.eraseIdx k := by
+  obtain ⟨t', e, i', el, _⟩ := rem_spec t k hk i
+  exact ⟨t', e, i', el⟩
+
+/-- For EVERY history of InsertAfter/Remove calls starting from the empty status: no call panics
+(neither "Tree too far out of shape!" nor a nil dereference), the invariant holds afterwards, and
+the in-order sequence is the one obtained by performing the same history on a plain list. -/
+theorem avl_no_panic_any_history (ops : List Canvas.C01Avl.Op) :
+    ∃ t, run .nil ops = some t ∧ Inv t ∧ t.toList = runSpec [] ops :=
+  run_spec ops .nil trivial
+
+/-- the invariant means: every node is AVL balanced w.r.t. TRUE heights (|balance| ≤ 1) … -/
+theorem avl_invariant_balanced (t : Tree) (i : Inv t) : Balanced t := inv_balanced i
+
+/-- … and every stored height below the root is the true height (the root's own stored height may
+be stale, see `avl_root_height_can_be_stale`) -/
+theorem avl_stored_heights_correct (l r : Tree) (x h : Nat) (i : Inv (.node l x h r)) :
+    Good l ∧ Good r ∧ l.ht = realHt l ∧ r.ht = realHt r :=
+  ⟨i.1, i.2.1, good_ht_real i.1, good_ht_real i.2.1⟩
+
+/-- hence `balance()` never leaves [-1,1] before an operation and the loop body of `rebalance` meets
+|balance| ≤ 2 only: on a node with good subtrees whose heights differ by at most 2 it succeeds -/
+theorem avl_rebalance_total (l r : Tree) (x h : Nat) (gl : Good l) (gr : Good r)
+    (h1 : l.ht ≤ r.ht + 2) (h2 : r.ht ≤ l.ht + 2) : ∃ t', step (.node l x h r) = some t' ∧ Good t' := by
+  obtain ⟨t', e, g, _⟩ := step_spec l r x h gl gr h1 h2
+  exact ⟨t', e, g⟩
+
+/-- re-running the loop body on an already good node changes nothing: Go's overlapping
+`for ancestor … { s.rebalance(ancestor) }` passes equal one pass up the spine -/
+theorem avl_rebalance_idempotent (l r : Tree) (x h : Nat) (g : Good (.node l x h r)) :
+    step (.node l x h r) = some (.node l x h r) := step_noop_on_good l r x h g
+
+/-- a reachable status whose ROOT stores a stale height (hanging a child under a leaf root skips
+`n.height++` because of `&& n.parent != nil`); harmless, since the root's height is never read
+before it is recomputed — but "all stored heights are correct" is false as stated -/
+theorem avl_root_height_can_be_stale :
+    ∃ ops t, run .nil ops = some t ∧ ¬ Good t := by
+  refine ⟨[.ins 0 1, .ins 1 2], .node .nil 1 1 (leaf 2), by decide, ?_⟩
+  simp [Good, leaf, ht]
+
+/-- `First`/`Last` are the ends of the in-order sequence -/
+theorem avl_first_last (t : Tree) : first t = t.toList.head? ∧ last t = t.toList.getLast? :=
+  ⟨first_spec t, last_spec t⟩
+
+/-- `Next()` is the in-order successor -/
+theorem avl_next_is_successor (t : Tree) (k : Nat) (hk : k < t.size) :
+    nextIn t k = t.toList[k + 1]? := nextIn_spec t k hk
+
+/-- `Prev()` is the in-order predecessor (nil for the first element) -/
+theorem avl_prev_is_predecessor (t : Tree) (k : Nat) (hk : k < t.size) :
+    prevIn t k = if k = 0 then none else t.toList[k - 1]? := prevIn_spec t k hk
+
+/-- non-vacuity: a sorted insertion run that forces a left rotation; a removal with two children -/
+example : run .nil [.ins 0 1, .ins 1 2, .ins 2 3] = some (.node (leaf 1) 2 2 (leaf 3)) := by decide
+example : run .nil [.ins 0 1, .ins 1 2, .ins 2 3, .del 1] = some (.node (leaf 1) 3 2 .nil) := by decide
+
+end Avl
+
+/-! ## (B) `SweepEvents`: the binary heap (model `Canvas.C01Heap`), for any strict weak order -/
+section Heap
+open Canvas.C01Heap
+variable {α : Type} {less : α → α → Bool}
+
+/-- `Init` turns ANY array into a heap -/
+theorem heap_init_establishes (sw : StrictWeak less) (a : Array α) : IsHeap less (init less a) :=
+  heap_init sw a
+
+theorem heap_push_preserves (sw : StrictWeak less) (a : Array α) (x : α) (h : IsHeap less a) :
+    IsHeap less (push less a x) := heap_push sw a x h
+
+theorem heap_pop_preserves (sw : StrictWeak less) (a : Array α) (m : α) (b : Array α)
+    (h : IsHeap less a) (hp : pop less a = some (m, b)) : IsHeap less b := heap_pop sw a m b h hp
+
+/-- `q[i] = x; q.Fix(i)` restores the heap for an arbitrary new key -/
+theorem heap_fix_preserves (sw : StrictWeak less) (a : Array α) (i : Nat) (x : α) (b : Array α)
+    (h : IsHeap less a) (hf : setFix less a i x = some b) : IsHeap less b := heap_fix sw a i x b h hf
+
+/-- `Pop` returns a `less`-minimal element of the queue -/
+theorem heap_pop_min (sw : StrictWeak less) (a : Array α) (m : α) (b : Array α)
+    (h : IsHeap less a) (hp : pop less a = some (m, b)) : m ∈ a ∧ ∀ x ∈ a, less x m = false :=
+  Canvas.C01Heap.heap_pop_min sw a m b h hp
+
+theorem heap_top_min (sw : StrictWeak less) (a : Array α) (m : α)
+    (h : IsHeap less a) (ht : top a = some m) : m ∈ a ∧ ∀ x ∈ a, less x m = false :=
+  Canvas.C01Heap.heap_top_min sw a m h ht
+
+/-- no event is lost or duplicated: the operations permute the multiset of queued events -/
+theorem heap_multiset_preserved (a : Array α) (x m : α) (b : Array α) (i : Nat) :
+    (push less a x).toList.Perm (x :: a.toList) ∧
+    (pop less a = some (m, b) → a.toList.Perm (m :: b.toList)) ∧
+    (setFix less a i x = some b → b.toList.Perm (a.toList.set i x)) ∧
+    (init less a).toList.Perm a.toList :=
+  ⟨heap_perm_push less a x, heap_perm_pop less a m b, heap_perm_fix less a i x b, heap_perm_init less a⟩
+
+/-- `Pop`/`Top` panic exactly on the empty queue, `Fix` exactly out of range -/
+theorem heap_panics_characterised (a : Array α) (i : Nat) (x : α) :
+    ((pop less a).isSome ↔ 0 < a.size) ∧ ((setFix less a i x).isSome ↔ i < a.size) :=
+  ⟨pop_isSome less a, setFix_isSome less a i x⟩
+
+/-- After `Init` on any array and ANY history of push/pop/fix: the queue is a heap and every pop
+returned a minimal element of the queue it was applied to. -/
+theorem heap_any_history (sw : StrictWeak less) (a0 : Array α) (ops : List (Canvas.C01Heap.Op α))
+    (c : Array α) (recs : List (PopRec α)) (hr : Canvas.C01Heap.run less (init less a0) ops = some (c, recs)) :
+    IsHeap less c ∧
+    ∀ r ∈ recs, IsHeap less r.before ∧ r.popped ∈ r.before ∧ ∀ x ∈ r.before, less x r.popped = false :=
+  heap_history sw a0 ops c recs hr
+
+example : StrictWeak ltInt := strictWeak_ltInt
+
+end Heap
+
+/-! ## (C) the comparators (model `Canvas.C01Cmp`), over any linearly ordered field with exact
+`InterpolateY` -/
+section Cmp
+open Canvas.C01Cmp
+variable {K : Type} [Field K] [LinearOrder K]
+
+omit [Field K] [LinearOrder K] in
+theorem compareOverlaps_antisymm (a b : SP K) : compareOverlapsV b a = - compareOverlapsV a b :=
+  compareOverlapsV_antisymm a b
+
+omit [Field K] [LinearOrder K] in
+/-- `compareOverlapsV` is a total three-way comparison of (clipping, segment): values in {-1,0,1}
+and 0 exactly for the same path and segment index -/
+theorem compareOverlaps_total (a b : SP K) :
+    (compareOverlapsV a b = -1 ∨ compareOverlapsV a b = 0 ∨ compareOverlapsV a b = 1) ∧
+    (compareOverlapsV a b = 0 ↔ a.clipping = b.clipping ∧ a.segment = b.segment) :=
+  ⟨compareOverlapsV_range a b, compareOverlapsV_eq_zero_iff a b⟩
+
+/-- `compareTangentsV` is antisymmetric for endpoints of the same kind (`WF`: the vertical flag is
+set iff x = other.x) -/
+theorem compareTangents_antisymm (a b : SP K) (hl : a.left = b.left) (ha : WF a) (hb : WF b) :
+    compareTangentsV b a = - compareTangentsV a b := compareTangentsV_antisymm a b hl ha hb
+
+/-- `CompareH b a = −CompareH a b` -/
+theorem cmp_antisymm (a b : SP K) (ha : WF a) (hb : WF b) : compareH b a = - compareH a b :=
+  compareH_antisymm a b ha hb
+
+/-- `LessH a b ↔ CompareH a b < 0` (the queue order and the sort order agree) -/
+theorem lessH_iff_compareH_neg (a b : SP K) : lessH a b = true ↔ compareH a b < 0 :=
+  Canvas.C01Cmp.lessH_iff_compareH_neg a b
+
+/-- `LessH` is irreflexive and asymmetric (transitivity is NOT proved, see the evidence) -/
+theorem lessH_strict (a b : SP K) (ha : WF a) (hb : WF b) :
+    lessH a a = false ∧ (lessH a b = true → lessH b a = false) :=
+  ⟨lessH_irrefl a, lessH_asymm a b ha hb⟩
+
+/-- `CompareV` is antisymmetric under its documented precondition `CompareVPre` (both left
+endpoints, well-formed flags, compared at max(a.x, b.x) inside both x-ranges) -/
+theorem compareV_antisymm (a b : SP K) (h : CompareVPre a b) : CompareV b a = - CompareV a b :=
+  CompareV_antisymm a b h
+
+/-- meaning of `CompareV`: the sign of the difference of the exact y-values at max(a.x, b.x);
+ties are broken by `compareTangentsV` -/
+theorem compareV_orders_by_y (a b : SP K) :
+    (yAt a (max a.x b.x) < yAt b (max a.x b.x) → CompareV a b = -1) ∧
+    (yAt b (max a.x b.x) < yAt a (max a.x b.x) → CompareV a b = 1) ∧
+    (yAt a (max a.x b.x) = yAt b (max a.x b.x) →
+      CompareV a b = if a.x < b.x then - compareTangentsV b a else compareTangentsV a b) :=
+  CompareV_spec_y a b
+
+end Cmp
+
+/-! ## (D) `mergeOverlapping` over a run of coincident segments (model `Canvas.C01Merge`) -/
+section Merge
+open Canvas.C01Merge
+
+/-- `mergeOverlapping` leaves the crossing sums of `sweep_windings_are_crossing_sums` unchanged for
+every segment above the run (the sums over the receiver and everything below it are the same
+before and after), given that coincident segments agree on being vertical -/
+theorem merge_preserves_sums (s : Ent) (below : List Ent)
+    (hv : ∀ p ∈ below, p.geom = s.geom → p.seg.vertical = s.seg.vertical) :
+    C01.sums (pairs ((merge s below).s :: (merge s below).below)) = C01.sums (pairs (s :: below)) :=
+  merge_sums s below hv
+
+/-- the absorbed segments are zeroed and marked `overlapped`; the chain below them is untouched -/
+theorem merge_zeroes_absorbed (s : Ent) (below : List Ent) (ht : (merge s below).touched = true) :
+    (merge s below).below = (absorb s below).2.1 ++ (absorb s below).2.2 ∧
+    (∀ e ∈ (absorb s below).2.1, e.f = zeroF ∧ e.overlapped = true) ∧
+    ∃ pre, below = pre ++ (absorb s below).2.2 ∧ pre.length = (absorb s below).2.1.length :=
+  merge_below s below ht
+
+/-- the receiver's recomputed windings are the crossing sums of what lies below it, provided the
+first segment that was not absorbed is correct and NOT vertical (`mergeOverlapping` does not skip
+vertical segments as `computeSweepFields` does) -/
+theorem merge_receiver_windings (s : Ent) (below : List Ent) (ht : (merge s below).touched = true)
+    (hp : ∀ p rest', (absorb s below).2.2 = p :: rest' →
+      p.seg.vertical = false ∧ (p.f.w, p.f.ow) = C01.expected p.seg (C01.sums (pairs rest'))) :
+    ((merge s below).s.f.w, (merge s below).s.f.ow)
+      = C01.expected (merge s below).s.seg (C01.sums (pairs (merge s below).below)) :=
+  merge_fields_expected s below ht hp
+
+end Merge
 
 end C01
